@@ -16,8 +16,11 @@ func (m *ModuleInstance) FailIfClosed() (err error) {
 		case exitCodeFlagResourceClosed:
 		case exitCodeFlagResourceNotClosed:
 			// This happens when this module is closed asynchronously in CloseModuleOnCanceledOrTimeout,
-			// and the closure of resources have been deferred here.
-			_ = m.ensureResourcesClosed(context.Background())
+			// and the closure of resources have been deferred here. Concurrent calls can observe this state at the
+			// same time: only the one that wins the transition releases the resources.
+			if m.Closed.CompareAndSwap(closed, closed&^exitCodeFlagMask|exitCodeFlagResourceClosed) {
+				_ = m.ensureResourcesClosed(context.Background())
+			}
 		}
 		return sys.NewExitError(uint32(closed >> 32)) // Unpack the high order bits as the exit code.
 	}
